@@ -55,6 +55,7 @@ def judge(sh, api, f, fmt, case, raw_kinds=("argv", "string")):
             sh.count("parses")
             probs = []
             pos_probs = []
+            short_probs = []
             try:
                 if not argline.same(r.options(False), exp_o):
                     probs.append("options(False)=%r expected %r" % (r.options(False), exp_o))
@@ -79,6 +80,10 @@ def judge(sh, api, f, fmt, case, raw_kinds=("argv", "string")):
                             probs.append("option(%r)=%r expected %r" % (o["short"], v, full_o[o["long"]]))
                     if r.is_option_set(o["long"]) != (o["long"] in exp_o):
                         probs.append("is_option_set(%r)=%r" % (o["long"], r.is_option_set(o["long"])))
+                    if o["short"] and r.is_option_set(o["short"]) != (o["long"] in exp_o):
+                        short_probs.append("is_option_set(%r)=%r but is_option_set(%r)=%r" % (o["short"], r.is_option_set(o["short"]), o["long"], r.is_option_set(o["long"])))
+                    if not r.is_option_defined(o["long"]) or (o["short"] and not r.is_option_defined(o["short"])):
+                        probs.append("is_option_defined false for %r" % o["long"])
                     sh.count("option_reads")
                 except Exception as e:
                     probs.append("option access %r raised %r" % (o["long"], e))
@@ -97,6 +102,8 @@ def judge(sh, api, f, fmt, case, raw_kinds=("argv", "string")):
                         pl.append("argument access %r raised %r" % (ref, e))
             if probs:
                 sh.violate("assignment", dict(rec, raw=kind, lenient=lenient), where + ": " + "; ".join(probs[:4]))
+            if short_probs:
+                sh.violate("short-name-access", dict(rec, raw=kind, lenient=lenient), where + ": " + "; ".join(short_probs[:4]))
             if pos_probs:
                 sh.violate("positional-access", dict(rec, raw=kind, lenient=lenient), where + ": " + "; ".join(pos_probs[:4]))
 
